@@ -839,6 +839,11 @@ std::ostream &language(std::ostream &s, symbol::format f, const i_mep &mep)
                                 ? terminal::cast(g.sym)->display(g.par, f)
                                 : function::cast(g.sym)->display(f));
 
+                // A negative literal must not merge with a preceding operator
+                // (`2.0--3.5`, `exp(--1.0)` are not valid expressions).
+                if (g.sym->terminal() && !ret.empty() && ret.front() == '-')
+                  ret = "(" + ret + ")";
+
                 auto arity(g.sym->arity());
                 for (decltype(arity) i(0); i < arity; ++i)
                 {
